@@ -1,4 +1,4 @@
-"""C43 — testbench helpers call methods exactly once (bounded stand-in, E-RT; MethodMock clause not applicable).
+"""C43 — testbench helpers call methods exactly once (bounded stand-in, E-RT).
 
 TestbenchIO.call / call_try / call_do / call_result and CallTrigger are run on a stub of the simulator context that
 implements only Amaranth's assumed contract (engine/simstub.py), for EVERY readiness history of the called method of
@@ -6,7 +6,16 @@ up to 5 cycles and two output patterns:
   call_try returns None <=> the method did not run in that cycle, otherwise that cycle's outputs; `en` is high for exactly
   that cycle;  call returns the outputs of the first cycle in which the method ran; `en` is high from the first cycle up to
   and including that cycle and low afterwards, so exactly one call is performed;  call_do likewise after call_init;
-  call_result never touches `en`;  CallTrigger returns calls and samples in declaration order, None for calls that did not run."""
+  call_result never touches `en`;  CallTrigger returns calls and samples in declaration order, None for calls that did not run.
+
+MethodMock (three cooperating coroutines) cannot be run on the stub: its meaning depends on the delta-cycle semantics of
+Amaranth's simulator (`changed().edge()`, `delay(0)`, `critical()`). Its clause is therefore checked as a bounded
+run-time contract on the REAL simulator (PysimSimulator + add_mock): for every enable history of the mock and every
+request history of the caller of T cycles (all 4^T combinations), with and without validate_arguments, delay 0 and > 0:
+  the mocked method runs in cycle t  <=>  enable()[t] and the caller requests and validate_arguments(arg[t]);
+  the caller sees, in that same cycle, the mock function's return value for arg[t] (through a combinational +1);
+  the recorded effects are exactly [arg[t] | the method ran in cycle t], in order — once per executed call, never for a
+  cycle in which the method did not run (although the mock function itself is re-evaluated combinationally)."""
 
 import itertools
 
@@ -19,19 +28,27 @@ from engine.simstub import StubSim, EndOfScript, drive
 PROPERTY = "C43"
 LEVEL = "exploration"
 ENGINE = "E-RT"
-TECHNIQUE = "run-time contracts on the real coroutines driven by a simulator stub, over exhaustively enumerated readiness histories (bounded)"
-LEVEL_TEXT = "Bounded stand-in (not a proof): the real TestbenchIO/CallTrigger coroutines are executed against a stub implementing the simulator's assumed contract for every readiness history of <= 5 cycles."
-LEVEL_NOTE = "Assumes Amaranth's simulator delivers samples and applies sets as the stub does (trusted dependency). The MethodMock clause of C43 is not applicable: it is a property of coroutine interleavings under Amaranth's scheduler (see DESIGN.md section 8)."
+TECHNIQUE = "bounded run-time contracts (not proof): the real TestbenchIO/CallTrigger coroutines on a simulator stub over every readiness history; the real MethodMock coroutines on Amaranth's simulator over every enable x request history"
+LEVEL_TEXT = "Bounded stand-in (not a proof): TestbenchIO/CallTrigger run against a stub of the simulator contract for every readiness history of <= 5 cycles; MethodMock runs on the real simulator for every enable x request history of 3 (quick) / 5 (thorough) cycles."
+LEVEL_NOTE = "TestbenchIO/CallTrigger: assumes Amaranth's simulator delivers samples and applies sets as the stub does (trusted dependency). MethodMock: bounded run-time contract on Amaranth's real simulator (all enable x request histories of T cycles); nothing in C43 is counted as proved."
 ASSUMPTIONS = [
     "simulator contract assumed (stub): a set() made before awaiting a tick is visible in that cycle; tick().sample() returns the values of that cycle",
     "bounded: readiness histories of <= 5 cycles, 2-bit outputs from two patterns",
-    "MethodMock clause: not applicable (concurrency of three coroutines under Amaranth's simulator scheduler; no function-level contract expresses it without a model of that scheduler)",
+    "MethodMock clause: bounded — every (enable history, request history) pair of T = 3 (quick) / 5 (thorough) cycles, with the caller testbench registered before or after the mock and with or without an intra-cycle change of mind of the caller, on Amaranth's real simulator, 3-bit arguments from a fixed pattern, one caller; interleavings with other mocks/testbenches beyond one caller testbench are not explored",
 ]
 T = 5
 
 
 def configs(tier):
-    return [{"fn": f} for f in ("call_try", "call", "call_do", "call_result", "call_trigger")]
+    out = [{"fn": f} for f in ("call_try", "call", "call_do", "call_result", "call_trigger")]
+    tm = 3 if tier == "quick" else 5
+    for variant in ("wrapper", "validate"):
+        for delay in (0, 1e-9):
+            for order in ("mock_first", "testbench_first"):
+                for glitch in (0, 1):
+                    for lo in range(0, 1 << tm, 4):
+                        out.append({"fn": "method_mock", "variant": variant, "delay": delay, "order": order, "glitch": glitch, "T": tm, "enable": [lo, lo + 4]})
+    return out
 
 
 def make_world(tb, ready, outs, log):
@@ -58,8 +75,110 @@ def histories():
             yield list(ready), outs
 
 
+# ---------------------------------------------------------------------------------------------- MethodMock
+MW = 3
+
+
+def _mm_circuit(variant):
+    from amaranth import Elaboratable, Module
+    from amaranth.lib.data import StructLayout
+    from transactron import Method, TModule, def_method
+    from transactron.lib.adapters import Adapter
+
+    lay_i, lay_o = StructLayout({"x": MW}), StructLayout({"y": MW})
+
+    class Circ(Elaboratable):
+        def __init__(self):
+            ad = Adapter(i=lay_i, o=lay_o)
+            if variant == "validate":
+                ad = ad.set(with_validate_arguments=True)
+            self.method = TestbenchIO(ad)  # the mocked method
+            self.wrapper = Method(i=lay_i, o=lay_o)
+            self.caller = TestbenchIO(AdapterTrans.create(self.wrapper))
+
+        def elaborate(self, platform):
+            m = TModule()
+            m.submodules += [self.method, self.caller]
+
+            @def_method(m, self.wrapper)
+            def _(x):
+                return {"y": self.method.adapter.iface(m, x=x).y + 1}
+
+            return m
+
+    return Circ()
+
+
+def mm_one(variant, delay, en_hist, req_hist, order="mock_first", glitch=0):
+    from transactron.testing.simulator import PysimSimulator
+    from transactron.testing.method_mock import MethodMock
+    from transactron.utils.dependencies import DependencyContext, DependencyManager
+
+    tm = len(en_hist)
+    args = [(3 * t + 1) % (1 << MW) for t in range(tm)]
+    fun = lambda x: (2 * x + 1) % (1 << MW)
+    valid = (lambda x: x != 4) if variant == "validate" else None
+    effects, obs = [], []
+    with DependencyContext(DependencyManager()):
+        c = _mm_circuit(variant)
+        sim = PysimSimulator(c, max_cycles=50)
+        it = iter(list(en_hist) + [0] * 4)
+
+        def f(x):
+            @MethodMock.effect
+            def _():
+                effects.append(int(x))
+
+            return {"y": fun(int(x))}
+
+        async def tb(s):
+            for t in range(tm):
+                if glitch:  # request something else first and change one's mind within the cycle (the design settles in between)
+                    c.caller.set_enable(s, 1)
+                    c.caller.set_inputs(s, {"x": (args[t] + 3) % (1 << MW)})
+                    assert s.get(c.caller.adapter.done) in (0, 1)
+                c.caller.set_enable(s, req_hist[t])
+                c.caller.set_inputs(s, {"x": args[t]})
+                _, _, done, out, mdone = await s.tick().sample(c.caller.adapter.done, c.caller.adapter.data_out, c.method.adapter.done)
+                obs.append((int(done), int(out.y), int(mdone)))
+            c.caller.disable(s)
+
+        kw = {"validate_arguments": (lambda x: valid(int(x)))} if valid else {}
+        if order == "testbench_first":
+            sim.add_testbench(tb)
+        sim.add_mock(MethodMock(c.method.adapter, f, enable=lambda: next(it), delay=delay, **kw))
+        if order != "testbench_first":
+            sim.add_testbench(tb)
+        sim.run()
+    runs = [int(bool(en_hist[t] and req_hist[t] and (valid is None or valid(args[t])))) for t in range(tm)]
+    exp_obs = [(runs[t], (fun(args[t]) + 1) % (1 << MW) if runs[t] else None, runs[t]) for t in range(tm)]
+    ok = all(o[0] == e[0] and o[2] == e[2] and (e[1] is None or o[1] == e[1]) for o, e in zip(obs, exp_obs)) and len(obs) == tm
+    ok = ok and effects == [args[t] for t in range(tm) if runs[t]]
+    return ok, {"order": order, "glitch": glitch, "enable": list(en_hist), "request": list(req_hist), "args": args, "observed(done,out,method_done)": obs, "expected_runs": runs,
+                "effects": effects, "expected_effects": [args[t] for t in range(tm) if runs[t]]}
+
+
+def run_method_mock(cfg, ctx):
+    tm = cfg["T"]
+    fails, n = [], 0
+    for en0 in range(*cfg["enable"]):
+        en_hist = [(en0 >> t) & 1 for t in range(tm)]
+        for req in itertools.product([0, 1], repeat=tm):
+            n += 1
+            ok, info = mm_one(cfg["variant"], cfg["delay"], en_hist, list(req), cfg.get("order", "mock_first"), cfg.get("glitch", 0))
+            if not ok:
+                fails.append(info)
+    ctx.functions.update({("MethodMock.output_process", "transactron/testing/method_mock.py"), ("MethodMock.effect_process", "transactron/testing/method_mock.py"),
+                          ("MethodMock.validate_arguments_process", "transactron/testing/method_mock.py"), ("MethodMock.effect", "transactron/testing/method_mock.py"),
+                          ("PysimSimulator.add_mock", "transactron/testing/simulator.py"), ("async_mock_def_helper", "transactron/utils/transactron_helpers.py")})
+    ctx.bounded_result("method_mock.contract", n, n, fails, rule=f"4 enable histories x every request history of {tm} cycles on Amaranth's real simulator; all distinct; every case simulates the real MethodMock coroutines to the end of the script",
+                       samples=[{"enable": en_hist, "request": [1] * tm}], exhaustive=True)
+
+
 def run(cfg, ctx):
     fn = cfg["fn"]
+    if fn == "method_mock":
+        return run_method_mock(cfg, ctx)
     fails = []
     n = 0
     for ready, outs in histories():
@@ -152,7 +271,35 @@ def _patch_order():
     TB.CallTrigger.__await__ = ns["__await__"]
 
 
+def _patch_mock_effects_always():
+    import transactron.testing.method_mock as MM
+    import inspect, textwrap
+
+    src = textwrap.dedent(inspect.getsource(MM.MethodMock.effect_process))
+    old = "            if done:\n"
+    assert old in src, src
+    src = src.replace(old, "            if True:\n")
+    ns = dict(MM.__dict__)
+    exec(src, ns)
+    MM.MethodMock.effect_process = ns["effect_process"]
+
+
+def _patch_mock_no_freeze():
+    import transactron.testing.method_mock as MM
+    import inspect, textwrap
+
+    src = textwrap.dedent(inspect.getsource(MM.MethodMock.output_process))
+    old = "        if not done or self._freeze:"
+    assert old in src, src
+    src = src.replace(old, "        if not done:")
+    ns = dict(MM.__dict__)
+    exec(src, ns)
+    MM.MethodMock.output_process = ns["output_process"]
+
+
 CANARIES = [
+    {"name": "mock_effects_applied_even_when_method_did_not_run", "cfg": {"fn": "method_mock", "variant": "wrapper", "delay": 0, "order": "mock_first", "glitch": 1, "T": 3, "enable": [4, 8]}, "patch": _patch_mock_effects_always, "expect": r"method_mock\.contract"},
+    {"name": "mock_recomputes_effects_after_the_clock_edge", "cfg": {"fn": "method_mock", "variant": "wrapper", "delay": 0, "order": "testbench_first", "glitch": 0, "T": 3, "enable": [4, 8]}, "patch": _patch_mock_no_freeze, "expect": r"method_mock\.contract"},
     {"name": "en_left_high_after_call_without_arguments", "cfg": {"fn": "call_trigger"}, "patch": _patch_disable, "expect": r"call_trigger\.contract"},
     {"name": "results_in_reverse_order", "cfg": {"fn": "call_trigger"}, "patch": _patch_order, "expect": r"call_trigger\.contract"},
 ]
